@@ -12,12 +12,8 @@ class AbstractOnlineInterpreter(AbstractInterpreter):
         return
 
     def reset(self):
-        # reset sub-specs
-        for key in self.ast.var_subspec_dict:
-            node = self.ast.var_subspec_dict[key]
-            self.resetVisitor.visitAst(node, self.online_operator_dict)
-
-        # reset spec
+        # reset the spec forest; sub-specs are assertions of the forest (ast.specs) too,
+        # and after pastify() only the forest holds the nodes the operators were built for
         self.resetVisitor.visitAst(self.ast, self.online_operator_dict)
         return
 
